@@ -139,6 +139,13 @@ Fixpoint skip_reaccess (s : list sevent) (p : nat) (fuel : nat) : nat :=
   | S f => match nth_error s p with Some (SReaccess | SSkipped | SMark | SNop) => skip_reaccess s (S p) f | _ => p end
   end.
 
+(* the same without passing over optional events (a delivered state event may be one of them) *)
+Fixpoint skip_soft (s : list sevent) (p : nat) (fuel : nat) : nat :=
+  match fuel with
+  | O => p
+  | S f => match nth_error s p with Some (SReaccess | SMark | SNop) => skip_soft s (S p) f | _ => p end
+  end.
+
 Fixpoint skip_marks (s : list sevent) (p : nat) (fuel : nat) : nat :=
   match fuel with
   | O => p
@@ -182,9 +189,10 @@ Definition deliver (st : mstate) (c : conn) (r : rid) (d : sevent) : mstate :=
         match fuel with
         | O => []
         | S f =>
-            let p' := skip_reaccess s p (length s) in
+            let p' := if is_state then skip_soft s p (length s) else skip_reaccess s p (length s) in
             match nth_error s p' with
             | Some SResetEnd => (if is_state then [p'] else []) ++ adv f (S p')   (* a derived event, or move past the marker *)
+            | Some SSkipped => (if is_state then [S p'] else []) ++ adv f (S p')   (* an optional event: this one, or not delivered *)
             | Some e => if ev_match (enc_ev (mem c (legacy st)) e) d then [S p'] else []
             | None => []
             end
@@ -455,7 +463,9 @@ Definition step (st : mstate) (e : tev) : mstate :=
       let st := if Nat.eqb (dcount cl r) 0 then add_viol st VUnsubEventNoDirect c r else st in
       finish_frame (set_client st c (with_direct cl r 0)) c
   | TMqEv r ev =>
-      let in_window := window_open st r in
+      (* ... and while the cached copy is stale because a re-fetch failed (a service fault): an event that no longer applies
+         to the copy the gateway was left with is discarded, so every state event is optional until a re-fetch succeeds *)
+      let in_window := window_open st r || mem r (stale st) in
       let ev' := match ev with
                  | SChange _ | SAdd _ _ | SRemove _ | SDelete => if in_window then SSkipped else ev
                  | _ => ev
